@@ -1042,6 +1042,107 @@ pub fn collect_typedefs(
             hir::Def::ExternBuiltin(ext) => define_extern_builtin(env, diagnostics, ext),
         }
     }
+
+    for item in hir.toplevels.iter() {
+        if let hir::Def::StructDef(struct_def) = hir_table.def(*item) {
+            report_struct_containing_itself(env, diagnostics, &struct_def.name.to_ident_name());
+        }
+    }
+}
+
+/// A struct that holds a value of its own type - directly, in a tuple, an array or a field of
+/// another struct - has no finite size (and no value). Behind `Vec`, `Ref`, an enum or a
+/// function type it is fine.
+fn report_struct_containing_itself(
+    env: &PackageTypeEnv,
+    diagnostics: &mut Diagnostics,
+    name: &str,
+) {
+    fn find_struct<'a>(env: &'a PackageTypeEnv, name: &str) -> Option<&'a env::StructDef> {
+        let ident = tast::TastIdent(name.to_string());
+        env.current()
+            .structs()
+            .get(&ident)
+            .or_else(|| env.deps.values().find_map(|dep| dep.structs().get(&ident)))
+    }
+
+    fn holds(
+        env: &PackageTypeEnv,
+        ty: &tast::Ty,
+        target: &str,
+        visiting: &mut Vec<String>,
+    ) -> bool {
+        let (struct_name, args): (&str, &[tast::Ty]) = match ty {
+            tast::Ty::TTuple { typs } => {
+                return typs.iter().any(|t| holds(env, t, target, visiting));
+            }
+            tast::Ty::TArray { elem, .. } => return holds(env, elem, target, visiting),
+            tast::Ty::TStruct { name } => (name.as_str(), &[]),
+            tast::Ty::TApp { ty, args } => match ty.as_ref() {
+                tast::Ty::TStruct { name } => (name.as_str(), args.as_slice()),
+                _ => return false,
+            },
+            _ => return false,
+        };
+        if struct_name == target {
+            return true;
+        }
+        let key = format!("{:?}", ty);
+        if visiting.len() > 64 || visiting.contains(&key) {
+            return false;
+        }
+        let Some(def) = find_struct(env, struct_name) else {
+            return false;
+        };
+        let subst: IndexMap<String, tast::Ty> = def
+            .generics
+            .iter()
+            .zip(args.iter())
+            .map(|(param, arg)| (param.0.clone(), arg.clone()))
+            .collect();
+        visiting.push(key);
+        let found = def
+            .fields
+            .iter()
+            .any(|(_, field_ty)| holds(env, &substitute_params(field_ty, &subst), target, visiting));
+        visiting.pop();
+        found
+    }
+
+    let Some(def) = find_struct(env, name) else {
+        return;
+    };
+    let mut visiting = Vec::new();
+    for (field, field_ty) in def.fields.iter() {
+        if holds(env, field_ty, name, &mut visiting) {
+            super::util::push_error(
+                diagnostics,
+                format!(
+                    "Struct {} contains itself in field {}: a value of it would have no finite size (put the field behind Vec, Ref or an enum)",
+                    name, field.0
+                ),
+            );
+            return;
+        }
+    }
+}
+
+fn substitute_params(ty: &tast::Ty, subst: &IndexMap<String, tast::Ty>) -> tast::Ty {
+    match ty {
+        tast::Ty::TParam { name } => subst.get(name).cloned().unwrap_or_else(|| ty.clone()),
+        tast::Ty::TTuple { typs } => tast::Ty::TTuple {
+            typs: typs.iter().map(|t| substitute_params(t, subst)).collect(),
+        },
+        tast::Ty::TArray { len, elem } => tast::Ty::TArray {
+            len: *len,
+            elem: Box::new(substitute_params(elem, subst)),
+        },
+        tast::Ty::TApp { ty, args } => tast::Ty::TApp {
+            ty: ty.clone(),
+            args: args.iter().map(|t| substitute_params(t, subst)).collect(),
+        },
+        _ => ty.clone(),
+    }
 }
 
 pub fn check_file(
